@@ -1389,7 +1389,7 @@ def split_at(collection, index, to_list):
         [[], [1, 2, 3, 4]]
     """
     lst = to_list(collection)
-    return [lst[:index], lst[index:]]
+    return lst[:index], lst[index:]
 
 
 @specs.method
@@ -1474,7 +1474,7 @@ def _merge_dicts(dict1, dict2, list_merge_func, item_merger, max_levels=0):
     for key2, value2 in dict2.items():
         if key2 not in result:
             result[key2] = value2
-    return result
+    return utils.FrozenDict(result)
 
 
 @specs.method
